@@ -4,6 +4,7 @@ import Driver.C14
 import Driver.C13
 import Driver.C02
 import Driver.PM
+import Driver.C09
 
 def main (args : List String) : IO UInt32 := do
   match args with
@@ -13,4 +14,5 @@ def main (args : List String) : IO UInt32 := do
   | "C13" :: rest => DriverC13.main rest; return 0
   | "C02" :: rest => DriverC02.main rest; return 0
   | "PM" :: rest => DriverPM.main rest; return 0
+  | "C09" :: rest => DriverC09.main rest; return 0
   | _ => IO.eprintln "usage: gvdriver <Cxx> [mode] < history"; return 2
